@@ -80,6 +80,8 @@ KeyIndex(k) == CHOOSE j \in DOMAIN Keys : Keys[j] = k
 
 Attrs(vs) == [j \in DOMAIN vs |-> <<ANames[j], At(vs[j])>>]
 Keyed(vs) == [j \in DOMAIN vs |-> <<Keys[j], At(vs[j])>>]
+\* an OrderedDict is filled in descending key order, so that its order differs from the sorted order and is observable
+KeyedDesc(vs) == [j \in DOMAIN vs |-> <<Keys[Len(vs) + 1 - j], At(vs[j])>>]
 Atoms(vs) == [j \in DOMAIN vs |-> At(vs[j])]
 Pad2(vs)  == [j \in 1 .. 2 |-> IF j <= Len(vs) THEN vs[j] ELSE Lf("z")]
 DictOrNone(vs) == IF vs = <<>> THEN VNone ELSE VD(Attrs(vs))
@@ -117,7 +119,7 @@ ReduceOf(o) ==
     [] o.s = "ML" -> Rd(TRUE, "ML", <<>>, DictOrNone(o.a), Atoms(o.p), <<>>)
     [] o.s = "MD" -> Rd(TRUE, "MD", <<>>, DictOrNone(o.a), <<>>, Keyed(o.p))
     [] o.s = "MS" -> Rd(FALSE, "MS", <<VL(Atoms(o.p))>>, VD(Attrs(o.a)), <<>>, <<>>)
-    [] o.s = "OD" -> Rd(FALSE, "OD", <<>>, VNone, <<>>, Keyed(o.p))                \* pickle's view; yaml has its own representer
+    [] o.s = "OD" -> Rd(FALSE, "OD", <<>>, VNone, <<>>, KeyedDesc(o.p))                \* pickle's view; yaml has its own representer
     \* subclasses of types that have their own representer entry go through represent_object like everything else
     [] o.s = "MO" -> Rd(FALSE, "MO", <<>>, DictOrNone(o.a), <<>>, Keyed(o.p))     \* OrderedDict subclass with attributes
     [] o.s = "XS" -> Rd(TRUE, "XS", <<At(o.p[1])>>, DictOrNone(o.a), <<>>, <<>>)  \* int / str / float / bytes / complex subclass
@@ -349,7 +351,7 @@ RepObj(rs, g, i) ==
                       [] o.s = "set"   -> RepMap(rs0, g, "set", "", [j \in DOMAIN o.p |-> <<o.p[j].l, VNone>>], own)
                       \* represent_ordered_dict: apply:OrderedDict [ [ [k, v], ... ] ]
                       [] o.s = "OD"    -> RepSeq(rs0, g, "apply", "OD",
-                                                 <<VL([j \in DOMAIN o.p |-> VL(<<At(Lf(Keys[j])), At(o.p[j])>>)])>>, own)
+                                                 <<VL([j \in DOMAIN o.p |-> VL(<<At(Lf(KeyedDesc(o.p)[j][1])), KeyedDesc(o.p)[j][2]>>)])>>, own)
                       [] OTHER -> RepReduce(rs0, g, ReduceOf(o), own, i)
            IN  <<[r[1] EXCEPT !.busy[i] = rs.busy[i]], r[2]>>
 
